@@ -52,6 +52,49 @@ def _run(ctx):
     used = sorted(set(r for r in readers if r in load_scope and "Debug" not in r and "Clone" not in r))
     ctx.ob("R-WHO", "compressed-container-consulted", bool(used), "the load path reads XrefEntry::Compressed.container in %s" % used, rd.where(),
            what="nothing on the load path reads XrefEntry::Compressed { container, .. }: when several object streams define the same object number the merged cross-reference table's designation is ignored and the first-come copy wins (a stale copy from an older revision can shadow the update)")
+    # 2b. how it is consulted: a member of an object stream is skipped exactly when the table names ANOTHER container for it
+    # (inequality, not an ordering), and skipping it means going on with the next member of the same stream
+    oi = [c for c in rd.calls if re.search(r"Entry::<.*>::or_insert$", c.fn or "")]
+    okc, howc = False, "no or_insert of object-stream members / no comparison of the container found"
+    if len(oi) == 1:
+        inner = None
+        for h, bl in sorted(rd.loops().items(), key=lambda kv: len(kv[1])):
+            if oi[0].bb in bl:
+                inner = (h, bl)
+                break
+        for bi in range(rd.n):
+            t = rd.term(bi)
+            if t["k"] != "switch" or t["dty"] != "bool" or inner is None or bi not in inner[1]:
+                continue
+            d = rd.def_rv(t["d"])
+            if not (d and d[2] == "rv" and d[3]["k"] == "bin"):
+                continue
+            ra, rb = rd.oname(d[3]["a"], 3), rd.oname(d[3]["b"], 3)
+            if "container" not in ra + rb:
+                continue
+            op = d[3]["op"]
+            skip = t["else"] if op == "Ne" else ([x for v, x in t["tg"] if v == "0"][0] if op == "Eq" else None)
+            if op not in ("Ne", "Eq"):
+                okc, howc = False, "a member is skipped when `%s(%s,%s)`: only a container that DIFFERS from the one named by the cross-reference entry makes a copy stale" % (op, ra, rb)
+                break
+            # on the skip edge control stays inside the loop over the members (reaches its header again without leaving it)
+            seen, work, leaves = set(), [skip], False
+            while work:
+                x = work.pop()
+                if x in seen or x == inner[0]:
+                    continue
+                seen.add(x)
+                if x not in inner[1]:
+                    leaves = True
+                    break
+                work.extend(y for y in rd.succ[x] if not rd.blocks[y].get("cleanup"))
+            reaches_ins = oi[0].bb in seen
+            okc = not leaves and not reaches_ins
+            howc = "skip edge of `%s(%s,%s)` goes back to the loop over the members" % (op, ra, rb) if okc else \
+                   "the skip edge of `%s(%s,%s)` %s" % (op, ra, rb, "leaves the loop over the members of the stream (the remaining members are dropped)" if leaves else "still reaches the insertion")
+            break
+    ctx.ob("R-ORDER", "stale-copy-skipped-alone", okc, howc, rd.where(oi[0].ln if oi else None),
+           what="object-stream members are not merged as the cross-reference table says: %s" % howc)
     # 3. history prefix
     sv = F.fn("IncrementalDocument::save_internal")
     # the first thing written (through the raw sink or through the counting wrapper) is the buffer get_prev_documents_bytes()
